@@ -123,6 +123,8 @@ class Translator:
                 return env[e.id]
             if e.id in self.module_ints:
                 return '(cInt (%d))' % self.module_ints[e.id]
+            if e.id in ('ALLOW_ACCESS', 'DENY_ACCESS'):
+                return 'cAllowConst' if e.id == 'ALLOW_ACCESS' else 'cDenyConst'     # (values: Generated.lean)
             raise Untranslatable('free name %s' % e.id)
         if isinstance(e, ast.Tuple) and not e.elts:
             return 'cEmptyTuple'
@@ -181,6 +183,10 @@ class Translator:
                     e.slice.lower is not None and e.slice.upper is not None:
                 return '(sliceM %s %s %s)' % (self.expr(e.value, env, cname), self.expr(e.slice.lower, env, cname),
                                              self.expr(e.slice.upper, env, cname))
+        if getattr(self, 'effect_mode', None) == 'eachdoc':
+            if isinstance(e, ast.Call) and isinstance(e.func, ast.Name) and e.func.id in env and len(e.args) == 1 and \
+                    not e.keywords:
+                return '(procCallM %s %s)' % (env[e.func.id], self.expr(e.args[0], env, cname))      # processor(doc)
         if getattr(self, 'effect_mode', None) == 'sql':
             if isinstance(e, ast.Call) and isinstance(e.func, ast.Attribute) and e.func.attr == 'from_policy' and \
                     isinstance(e.func.value, ast.Name) and e.func.value.id == 'PolicyModel' and len(e.args) == 1:
@@ -497,6 +503,8 @@ class Translator:
                     out.add('__w')
                 if isinstance(n, ast.Yield):
                     out.add('__y')               # what the generator has yielded so far
+                if isinstance(n, ast.Call) and isinstance(n.func, ast.Attribute) and n.func.attr == 'replace_one':
+                    out.add('__w')
         return out
 
     @staticmethod
@@ -645,6 +653,48 @@ class Translator:
             hoisted = self._hoist_store_call(s, rest, env, cname, end, brk)
             if hoisted is not None:
                 return hoisted
+        if getattr(self, 'effect_mode', None) == 'eachdoc':
+            def plain(stmts):
+                return [b for b in stmts if not is_log_call(b)]
+            if isinstance(s, ast.Assign) and len(s.targets) == 1 and isinstance(s.targets[0], ast.Name) and \
+                    isinstance(s.value, ast.Call) and isinstance(s.value.func, ast.Name) and s.value.func.id == 'getattr' and \
+                    len(s.value.args) == 2 and isinstance(s.value.args[0], ast.Name) and s.value.args[0].id == 'self' and \
+                    getattr(s.value.args[1], 'value', None) == 'storage':
+                env2 = dict(env)
+                env2[s.targets[0].id] = env['self']          # storage = getattr(self, 'storage'): the collection is the world
+                return self.block(rest, env2, cname, end, brk)
+            if isinstance(s, ast.Assign) and len(s.targets) == 1 and isinstance(s.targets[0], ast.Name) and \
+                    isinstance(s.value, ast.Call) and isinstance(s.value.func, ast.Attribute) and s.value.func.attr == 'find' and \
+                    not s.value.args and not s.value.keywords and isinstance(s.value.func.value, ast.Attribute) and \
+                    s.value.func.value.attr == 'collection':
+                self.fresh += 1
+                r = 'r%d' % self.fresh
+                env2 = dict(env)
+                env2[s.targets[0].id] = '(pure %s)' % r
+                return '(bindM (collFindM %s) fun %s =>\n      %s)' % (env['__w'], r, self.block(rest, env2, cname, end, brk))
+            if isinstance(s, ast.Try) and not s.orelse and not s.finalbody and s.handlers and \
+                    all(isinstance(h.type, ast.Name) and h.type.id in ('Irreversible', 'Exception') for h in s.handlers):
+                hbs = [plain(h.body) for h in s.handlers]
+                if len({repr([ast.dump(x) for x in b]) for b in hbs}) != 1:
+                    raise Untranslatable('the handlers differ')
+                # whatever the processor (or the look-up of the new uid) raises: the one reaction of both handlers, on the collection
+                # as it stood (the replacement is the last thing the body does)
+                return '(tryElseM %s\n      %s)' % (self.block(plain(s.body) + rest, env, cname, end, brk),
+                                                   self.block(hbs[0] + rest, env, cname, end, brk))
+            if isinstance(s, ast.Expr) and isinstance(s.value, ast.Call) and isinstance(s.value.func, ast.Attribute) and \
+                    s.value.func.attr == 'replace_one' and len(s.value.args) == 2 and not s.value.keywords and \
+                    isinstance(s.value.args[0], ast.Dict) and len(s.value.args[0].keys) == 1 and \
+                    getattr(s.value.args[0].keys[0], 'value', None) == '_id':
+                self.fresh += 1
+                w = 'w%d' % self.fresh
+                env2 = dict(env)
+                env2['__w'] = '(pure %s)' % w
+                return '(replaceOneM %s %s %s fun %s =>\n      %s)' % (
+                    self.expr(s.value.args[0].values[0], env, cname), self.expr(s.value.args[1], env, cname), env['__w'], w,
+                    self.block(rest, env2, cname, end, brk))
+            if isinstance(s, ast.If) and not s.orelse and s.body and is_log_call(s.body[-1]) and \
+                    all(isinstance(b, ast.Assign) and len(b.targets) == 1 and isinstance(b.targets[0], ast.Name) for b in s.body[:-1]):
+                return self.block(rest, env, cname, end, brk)        # a branch that only composes and writes a log message
         if getattr(self, 'effect_mode', None) == 'sql':
             def sess_call(c, name):
                 return isinstance(c, ast.Call) and isinstance(c.func, ast.Attribute) and c.func.attr == name and \
@@ -968,9 +1018,26 @@ class Translator:
                         isinstance(c.args[0], ast.Name) and c.args[0].id == 'self':
                     return set_self(self.expr(c.args[1], env, cname), self.expr(c.args[2], env, cname))
             if isinstance(s, ast.Assign) and len(s.targets) == 1 and isinstance(s.targets[0], ast.Attribute) and \
+                    isinstance(s.targets[0].value, ast.Name) and s.targets[0].value.id == 'self' and \
+                    '__setattr__' in getattr(self, 'policy_emitted', ()):
+                # self.<name> = value in a class that defines __setattr__: the translated __setattr__ is what runs
+                self.fresh += 1
+                o = 'o%d' % self.fresh
+                env2 = dict(env)
+                env2['self'] = '(pure %s)' % o
+                return ('(callProcM (bindM %s fun a_self => bindM %s fun a_val => setattr_Policy a_self (V.py (.str "%s".toList)) a_val) '
+                        'fun _r %s =>\n      %s)' % (env['self'], self.expr(s.value, env, cname), s.targets[0].attr, o,
+                                                      self.block(rest, env2, cname, end, brk)))
+            if isinstance(s, ast.Assign) and len(s.targets) == 1 and isinstance(s.targets[0], ast.Attribute) and \
                     isinstance(s.targets[0].value, ast.Name) and s.targets[0].value.id == 'self':
                 # self.<name> = value (a class without __setattr__ of its own: a plain write)
                 return set_self('(cStr "%s")' % s.targets[0].attr, self.expr(s.value, env, cname))
+            if isinstance(s, ast.Expr) and isinstance(s.value, ast.Call) and isinstance(s.value.func, ast.Attribute) and \
+                    s.value.func.attr == 'warn' and isinstance(s.value.func.value, ast.Name) and \
+                    s.value.func.value.id == 'warnings':
+                return self.block(rest, env, cname, end, brk)            # a deprecation warning: nothing to the object
+            if isinstance(s, ast.Pass):
+                return self.block(rest, env, cname, end, brk)
             if isinstance(s, ast.Assign) and len(s.targets) == 1 and isinstance(s.targets[0], ast.Subscript) and \
                     isinstance(s.targets[0].value, ast.Attribute) and s.targets[0].value.attr == '__dict__' and \
                     isinstance(s.targets[0].value.value, ast.Name) and s.targets[0].value.value.id == 'self':
@@ -1426,7 +1493,7 @@ def translate_parser(repo):
     return '\n'.join(out) + '\n', [('parser', c, []) for c in done], [('parser', c, r) for c, r in failed]
 
 
-POLICY_METHODS = ['_calculate_type', '_check_field_type', '__setattr__']
+POLICY_METHODS = ['_calculate_type', '_check_field_type', '__setattr__', '__init__']
 
 
 def translate_policy(repo):
@@ -1440,7 +1507,7 @@ def translate_policy(repo):
             params = [a.arg for a in f.args.args]
             tr.attrs, tr.fresh = set(), 0
             env = {p: '(pure p_%s)' % p for p in params}          # `self` is an ordinary (object) parameter here
-            if m == '__setattr__':
+            if m in ('__setattr__', '__init__'):
                 # the object is what the method acts on: the two writes are effects, the result is (None, the object)
                 tr.effect_mode = 'obj'
                 body = tr.block(f.body, env, 'Policy', end=lambda e: '(pairM cNone %s)' % e['self'])
@@ -1524,6 +1591,34 @@ def translate_migration(repo):
 
 
 ENFOLD_METHODS = ['add', 'update', 'delete', 'get', 'get_all', 'populate', 'retrieve_all']
+
+
+def translate_mongo_mig(repo):
+    out = ['import Model.PyPrim', '/-! GENERATED by harness/pytolean.py from vakt/storage/mongo.py (MongoMigration._each_doc) - do not edit -/',
+           'set_option linter.unusedVariables false', 'namespace Vakt.GenMongoMig', 'open Vakt Vakt.PyPrim', '']
+    done, failed = [], []
+    tr = Translator(ast.parse(open(os.path.join(repo, 'vakt', 'storage', 'mongo.py')).read()))
+    tr.effect_mode = 'eachdoc'
+    try:
+        f = tr.method('MongoMigration', '_each_doc')
+        params = [a.arg for a in f.args.args]
+        tr.attrs, tr.fresh = set(), 0
+        env = {p: '(pure p_%s)' % p for p in params}
+        env['__w'] = '(pure p_w)'
+        # the function returns None; what it reports (the documents it could not convert) is the value of `failed_policies` when it ends
+        body = tr.block(f.body, env, 'MongoMigration', end=lambda e: '(pairM %s %s)' % (e.get('failed_policies', 'cNone'), e['__w']))
+        out.append('/-- `vakt.storage.mongo.MongoMigration._each_doc` (the collection is the world; the result is the list of documents '
+                   'reported as failed, with the world) -/')
+        out.append('def each_doc_MongoMigration (%s p_w : V) : M :=\n    %s\n' % (' '.join('p_%s' % p for p in params), body))
+        done.append('_each_doc')
+    except Untranslatable as e:
+        failed.append(('_each_doc', str(e)))
+    out.append('def translatedMongoMig : List String := [%s]' % ', '.join('"%s"' % c for c in done))
+    out.append('def untranslatedMongoMig : List (String × String) := [%s]' % ', '.join(
+        '("%s", "%s")' % (c, r.replace('"', "'")) for c, r in failed))
+    out.append('')
+    out.append('end Vakt.GenMongoMig')
+    return '\n'.join(out) + '\n', [('mongo-mig', c, []) for c in done], [('mongo-mig', c, r) for c, r in failed]
 
 
 SQL_METHODS = ['add', 'get', 'update', 'delete']
@@ -1950,7 +2045,8 @@ def regenerate(repo, lean_dir):
                                   'PolicyJson.lean'),
                                  (translate_redis, 'GenRedis', ('translatedRedis', 'untranslatedRedis'), 'Redis.lean'),
                                  (translate_mongo, 'GenMongo', ('translatedMongo', 'untranslatedMongo'), 'Mongo.lean'),
-                                 (translate_sql, 'GenSql', ('translatedSql', 'untranslatedSql'), 'Sql.lean')):
+                                 (translate_sql, 'GenSql', ('translatedSql', 'untranslatedSql'), 'Sql.lean'),
+                                 (translate_mongo_mig, 'GenMongoMig', ('translatedMongoMig', 'untranslatedMongoMig'), 'MongoMig.lean')):
         try:
             xtext, xtr, xun = fn(repo)
         except Exception as e:
@@ -1985,6 +2081,8 @@ if __name__ == '__main__':
         text, tr, un = translate_audit_msgs(repo)
     if '--guard-audit' in sys.argv:
         text, tr, un = translate_guard_audit(repo)
+    if '--mongo-mig' in sys.argv:
+        text, tr, un = translate_mongo_mig(repo)
     if '--sql' in sys.argv:
         text, tr, un = translate_sql(repo)
     if '--mongo' in sys.argv:
